@@ -16,14 +16,20 @@
                  FastForward(d ms).  Logged before the call ...
      ELost i     ... and after it returned
      ECtx i c    the harness inspected the context returned to i (after waiting
-                 for Done at most the observation window): its state *)
+                 for Done() at most the observation window): its state.
+   For etcd an ELose is either a revocation of the session lease through the
+   cluster client or a network partition between the client and the server
+   (the lease then runs out on the server). *)
 From Coq Require Import List Bool ZArith Arith.
 Import ListNotations.
 Local Open Scope Z_scope.
 
 Inductive lop := OpLock | OpTry.
 Inductive ferr := FBusy | FTimeout | FExpired | FOther.
-Inductive cerr := CtxLive | CtxSessionDone | CtxOther.
+(* state of a returned context: CtxSessionDone = Done() is closed and Err() is
+   ErrLockSessionDone; CtxErrOpen = Err() already reports ErrLockSessionDone but
+   Done() is not closed (the holder is not woken up) *)
+Inductive cerr := CtxLive | CtxSessionDone | CtxErrOpen | CtxOther.
 
 Inductive cev :=
 | ECall (i : nat) (o : lop)
@@ -41,7 +47,10 @@ Definition lop_eqb (a b : lop) := match a, b with OpLock, OpLock | OpTry, OpTry 
 Definition ferr_eqb (a b : ferr) :=
   match a, b with FBusy, FBusy | FTimeout, FTimeout | FExpired, FExpired | FOther, FOther => true | _, _ => false end.
 Definition cerr_eqb (a b : cerr) :=
-  match a, b with CtxLive, CtxLive | CtxSessionDone, CtxSessionDone | CtxOther, CtxOther => true | _, _ => false end.
+  match a, b with
+  | CtxLive, CtxLive | CtxSessionDone, CtxSessionDone | CtxErrOpen, CtxErrOpen | CtxOther, CtxOther => true
+  | _, _ => false
+  end.
 
 Definition ev_thread (e : cev) : nat :=
   match e with
